@@ -3,7 +3,7 @@
    give, on the quantities the model computes, exactly the exit code of the model's verify_core. *)
 From Coq Require Import List NArith ZArith Bool.
 Import ListNotations.
-From MHL Require Import Model.Commands Gen.Generated Gen.GeneratedFns.
+From MHL Require Import Model.Commands Gen.Generated Gen.GeneratedFns Proofs.BaseFacts Proofs.VerifyFacts.
 
 Section SourceExit.
   Variable Hb : fmt -> bytes -> bytes.
@@ -28,5 +28,28 @@ Section SourceExit.
     destruct is_diff.
     - destruct miss as [|m ms]; destruct (vs_new vs) as [|n ns]; reflexivity.
     - destruct (vs_bad vs) as [|b bs]; destruct (vs_new vs) as [|n ns]; destruct only as [q|]; destruct (vs_found vs); destruct miss as [|m ms]; reflexivity.
+  Qed.
+
+  (* create in folder mode: unless the run aborts, its exit code is the translated decision applied to what the run reports
+     missing, to its number of failed comparisons (the failed formats of every visited file) and to whether the folder
+     of a loaded nested history is gone *)
+  Variable cdig : C -> text.
+  Variable ser : gen -> C.
+  Theorem create_exit_is_source (t : node C) req no_dh dr ip ifl hs : load C cdig t = inl hs ->
+    let o := snd (create_folder Hb matches C cdig ser t req no_dh dr ip ifl) in
+    let spec := set_patterns (latest_patterns (lh_gens (root_hist hs))) ip (pattern_file_lines ifl) in
+    let fails := list_sum (map (file_failures Hb hs (sort_fmts req)) (ev_files (events matches C spec [] t))) in
+    o_outcome o = Abort \/
+    o_outcome o = Exit (src_create_exit (negb (is_nil (o_missing o))) false false 0 fails (negb (is_nil (missing_history_folders C hs t)))).
+  Proof.
+    intros Hl. cbn zeta. unfold create_folder. rewrite Hl.
+    match goal with |- context [fold_left ?f ?l ?i] => pose proof (fold_events_fails Hb matches C hs (sort_fmts req) no_dh
+      (set_patterns (latest_patterns (lh_gens (root_hist hs))) ip (pattern_file_lines ifl)) t l [] 0 : snd (fold_left f l i) = _) as Hf; destruct (fold_left f l i) as [sess fails] end.
+    cbn [snd] in Hf. cbn [Nat.add] in Hf. rewrite <- Hf. cbn [snd o_outcome o_missing].
+    destruct (cs_abort C _ || dr_abort _)%bool eqn:Ea; [left; reflexivity|right].
+    destruct fails as [|n]; cbn [Nat.ltb Nat.leb].
+    - destruct (sorted_paths (missing _ _ _)) as [|m ms]; [|reflexivity].
+      destruct (missing_history_folders C hs t); reflexivity.
+    - destruct (sorted_paths (missing _ _ _)) as [|m ms]; reflexivity.
   Qed.
 End SourceExit.
